@@ -279,7 +279,7 @@ class World:
                 prio = sut.Priority[a["prio"]] if a.get("prio") else (ops[0].pipeline.priority if ops else sut.Priority.QUERY)
                 ra = sut.Assignment(ops=ops, cpu=a["cpu"], ram=a["ram"], priority=prio, pool_id=a["pool"],
                                     pipeline_id=ops[0].pipeline.pipeline_id if ops else "none",
-                                    **({"is_resume": True} if a.get("resume") else {}))
+                                    **self.optional_args(a))
             except Exception as e:
                 self.ev("assignment_construction_refused")
                 if ok_states and valid_args:
@@ -372,6 +372,8 @@ class World:
             reason, k, tags = expect
             if step.get("_releasing"):
                 tags = tuple(tags) + ("C10",)       # the allocation of a container still writing out was handed out
+            if reason == "oversell-ram":
+                tags = tuple(tags) + ("C04",)       # RAM handed out twice without overcommit: the memory clauses no longer have a basis
             self.problem(tags, "inadmissible-accepted", f"step should be refused ({reason}) but was executed: {step}")
             self.ended = "inadmissible-accepted"
             return
@@ -384,6 +386,22 @@ class World:
         self.compare(results)
 
     # ------------------------------------------------------------------ model
+    def optional_args(self, a):
+        """The optional arguments of Assignment (labels as far as the statement goes): is_resume, the id of the
+        container being 'resumed' (one that is being written out or was suspended), force_run."""
+        kw = {}
+        if a.get("resume"):
+            kw["is_resume"] = True
+            if a.get("resume_of") is not None:
+                mc = self.find_mc(a["resume_of"])
+                if mc is not None and mc.cid is not None:
+                    kw["container_id"] = mc.cid
+                    self.ev("assignments_naming_a_suspended_or_suspending_container")
+        if a.get("force"):
+            kw["force_run"] = True
+            self.ev("assignments_with_force_run")
+        return kw
+
     def parents_done(self, key):
         pi, oi = key
         return all(self.mstate[(pi, q)] == "completed" for q in self.specs[pi]["ops"][oi]["parents"])
